@@ -11,14 +11,32 @@ DB = [[[1, 1, 0], ["OctetString", 11]], [[1, 2, 0], ["ObjectIdentifier", 12]], [
       [[1, 9, 0], ["Opaque", 19]], [[1, 10, 0], ["Counter64", 20]],
       [[2, 1, 0], ["Counter64", -(1 << 40)]], [[2, 3, 0], ["Counter64", 43 - (1 << 40)]],
       [[7, 2, 1, 1, 1], ["Integer", 1]], [[7, 2, 1, 1, 2], ["Integer", 2]], [[7, 2, 1, 2, 1], ["OctetString", 3]], [[7, 2, 1, 2, 2], ["TimeTicks", 4]],
-      [[7, 2, 1, 3, 1], ["Counter64", -(1 << 40)]], [[7, 2, 1, 3, 2], ["IpAddress", 5]]]
+      [[7, 2, 1, 3, 1], ["Counter64", -(1 << 40)]], [[7, 2, 1, 3, 2], ["IpAddress", 5]],
+      # a sparse table under .8.2: later rows have columns the first row lacks, one row has a single cell, multi-component indexes
+      [[8, 2, 1, 1, 1], ["Integer", 31]], [[8, 2, 1, 2, 1], ["OctetString", 32]], [[8, 2, 1, 2, 2], ["OctetString", 33]], [[8, 2, 1, 3, 2], ["TimeTicks", 34]],
+      [[8, 2, 1, 4, 3], ["IpAddress", 35]], [[8, 2, 1, 5, 4, 7], ["ObjectIdentifier", 36]], [[8, 2, 1, 6, 2], ["Counter64", 37]], [[8, 2, 1, 7, 4, 7], ["Null", 0]],
+      [[8, 2, 1, 8, 3], ["Opaque", 38]],
+      # Opaque / OCTET STRING values whose content is itself a complete well-formed BER value (they stay bytes)
+      [[9, 1, 0], ["OpaqueRaw", [4, 7] + list(b"wrapped")]], [[9, 2, 0], ["OpaqueRaw", [2, 1, 5]]], [[9, 3, 0], ["OpaqueRaw", [0x46, 1, 9]]],
+      [[9, 4, 0], ["OpaqueRaw", [0x9f, 0x78, 4, 0x42, 0xf6, 0, 0]]], [[9, 5, 0], ["OctetStringRaw", [0x30, 3, 2, 1, 5]]], [[9, 6, 0], ["OpaqueRaw", [0x30, 3, 2, 1, 5]]],
+      [[9, 7, 0], ["OpaqueRaw", [5, 0]]], [[9, 8, 0], ["OpaqueRaw", []]]]
 
 
 def calls(rnd):
     inst = [o for o, _ in DB]
     C = []
-    for o in inst[:12]:
+    for o in inst[:12] + [o for o in inst if o[0] == 9]:
         C.append(dict(op="get", oids=[o]))
+    C.append(dict(op="walk", oids=[[9]]))
+    C.append(dict(op="multiget", oids=[o for o in inst if o[0] == 9]))
+    C.append(dict(op="bulkwalk", oids=[[9], [8]], bulk=4))
+    C.append(dict(op="table", oids=[[8, 2, 1]]))
+    for b in (1, 2, 7):
+        C.append(dict(op="bulktable", oids=[[8, 2]], bulk=b))
+    # several repeating OIDs: up to max-repetitions bindings PER repeater
+    C.append(dict(op="bulkget", oids=[[1], [7]], nr=0, bulk=3))
+    C.append(dict(op="bulkget", oids=[[1, 1], [1], [2], [8]], nr=1, bulk=2))
+    C.append(dict(op="bulkget", oids=[[1], [9], [8, 2, 1, 2]], nr=0, bulk=5))
     C.append(dict(op="getnext", oids=[[1]]))
     for o in rnd.sample(inst, 5):
         C.append(dict(op="getnext", oids=[o[:-1]]))
@@ -67,7 +85,8 @@ def run(ctx):
     ctx.judge(E, verdicts, signature=lambda tr, v: dict(op=tr["events"][0]["op"]), nontrivial=lambda tr, v: tr["events"][0]["got"] + tr["events"][0]["op"] if not tr["events"][0]["raw_failed"] else None)
     ctx.rule = ("every wrapper operation (get, getnext, multiget, set, multiset, walk, multiwalk, bulkwalk, bulkget, table, bulktable) next to the raw operation for "
                 "the same exchange, on a database with every SNMP value type (a NULL-typed object in the middle of a subtree, OID / Counter64 values with "
-                "identical content octets, an empty bulk listing, a table with mixed types), in seeded call orders on one wrapper, over v1/v2c/v3; "
+                "identical content octets, an empty bulk listing, bulkget with several repeaters, a table with mixed types, a sparse table whose later rows have "
+                "columns the first row lacks, Opaque / OCTET STRING values whose content is itself well-formed BER), in seeded call orders on one wrapper, over v1/v2c/v3; "
                 "distinct = distinct (operation, result)")
     ctx.assumptions = ["PyVarBind (a tuple subclass) and BulkResult (the documented container) are containers, not leaves",
                        "the reference conversion is the harness's own table by class name; it never calls .pythonize()"]
